@@ -5,7 +5,8 @@ import vlib
 LABELS = ["LOffer", "LOfferFail", "LTake", "LConsExit", "LAbsorb(keep)", "LAbsorb(flush)", "LSpawnC", "LBegin",
           "LEnd(ok)", "LEnd(transient)", "LEnd(permanent)", "LRetryTimer", "LRetryStop", "LRetryGiveUp", "LDone",
           "LTimerFire", "LTimerSpawn", "LTimerExit", "LShutCall", "LCloseStop", "LQueueStop", "LJoinConsumers",
-          "LFinalFlush", "LFinalSpawn", "LJoinFlushes", "LInnerShutdown", "LReturn"]
+          "LFinalFlush", "LFinalSpawn", "LJoinFlushes", "LInnerShutdown", "LReturn",
+          "LAbsorb(split,keep last)", "LAbsorb(split,flush all)", "LSend", "LNoQueue"]
 
 
 class P(vlib.Prop):
@@ -40,13 +41,13 @@ class P(vlib.Prop):
             "small queues, Shutdown at a random moment), oracle-only.  Storage faults: with a persistent queue the "
             "queue-size snapshot write (queue sized by items) and/or client.Close fail in 35 % of the schedules each, so "
             "persistentQueue.Shutdown returns an error; the model predicts whether Shutdown returns an error (event (2,[1])).  "
-            "Split family (300 / 6 000 gated schedules, oracle-only): max_size 1-2 with requests of 2-3 individually "
+            "Split family (300 / 6 000 gated schedules, model-compared at request level): max_size 1-2 with requests of 2-3 individually "
             "identified items, so one stored request is exported by several calls with independently chosen outcomes.  "
             "refcount harness (queuebatch): EVERY sequence of part results of length 1-4 (quick) / 1-6 (thorough) over "
             "{nil, permanent, other final, shutdown error} through the real persistentQueue + refCountDone, kept/deleted "
             "compared with the model's kept_after.  Every family calls Shutdown with a context that is live / already "
             "cancelled / past its deadline / cancelled during the drain (the model ignores it: the code must too).  "
-            "Queue-less family (150 / 3 000 gated schedules, oracle-only): exporter with retry but without queue and "
+            "Queue-less family (150 / 3 000 gated schedules, model-compared: cfg c_queue = false): exporter with retry but without queue and "
             "batcher, Sends on their own goroutines.  Direct oracle on every schedule: see the headers of "
             "harness/C03/shutdown_test.go and refcount_test.go.")
     trusted_base = [
@@ -64,14 +65,15 @@ class P(vlib.Prop):
         "sync.Mutex, sync.Cond, sync.WaitGroup, channels and time.Timer behave as documented",
         "Start has completed before the first offer; Shutdown is called once; the export function returns when answered "
         "(timeout sender disabled in the harness); num_consumers >= 1 and, with batching, a worker pool >= 1 (forced by queue_batch.go)",
-        "not modelled: queue capacity / block_on_overflow / wait_for_result (C02), max_size splitting (C04; stress-tested only), "
+        "not modelled: queue capacity / block_on_overflow (C02), which items of a split request go into which chunk (C04), "
         "back-off durations (the back-off timer may fire at any time), storage failures and process death (C01), "
-        "exporters without queue and batcher are not an LTS configuration (oracle-only family vDirect)",
+        "refCountDone's counter is represented by the number of outstanding parts of the request (a miscount is a correspondence failure)",
     ]
 
     def extra_checks(self, ctx):
         """Evidence: which labels of the LTS the model takes while replaying (a sample of) the cases."""
-        terms = [c["term"] for c in ctx.cases if len(c["term"]) < 4000][:150]
+        terms = [c["term"] for c in ctx.cases if len(c["term"]) < 4000 and not c["term"].startswith("([9")]
+        terms = terms[::max(1, -(-len(terms) // 200))]   # about 200, spread over all families
         if not terms:
             return
         out = vlib.coq_eval_term(ctx, "C03.Harness", "label_hist [%s]" % "; ".join(terms))
